@@ -4,3 +4,5 @@ import PqVerif.Driver.Engine
 import PqVerif.Driver.Program
 import PqVerif.Driver.Gauss
 import PqVerif.Driver.GaussRep
+import PqVerif.Driver.Kernel
+import PqVerif.Driver.Rng
